@@ -22,7 +22,7 @@ PROP = "C15"
 LEVEL = "exploration"
 BUDGET = {
     "quick": {"budget_s": 45, "chunk": 30, "shrink_s": 40},
-    "thorough": {"budget_s": 900, "chunk": 80, "shrink_s": 120},
+    "thorough": {"budget_s": 900, "chunk": 40, "shrink_s": 120, "chunk_wall": 600.0},
 }
 RULE = (
     "cases: C16's generated deterministic channel scripts x remote backend {thread, main_thread_only, gevent-name} run on "
